@@ -809,6 +809,10 @@ func (g *G) genGEP(c *cur) {
 	var idx []am.GEPIndex
 	t := elemT
 	nidx := g.rng("ngepidx", 1, 4)
+	if g.chance("gepnoidx", 1, 10) {
+		nidx = 0 // `getelementptr T, T* %p`: no index at all is valid; the result keeps address space and vector shape of the base
+		g.feat("gep/no-index")
+	}
 	for k := 0; k < nidx; k++ {
 		var iv *am.Value
 		gi := am.GEPIndex{}
